@@ -1,5 +1,11 @@
 package main
 
-func cmdCheck(args []string)    {}
+import (
+	"go/ast"
+	"go/parser"
+)
+
 func cmdReplay(args []string)   {}
 func cmdSelftest(args []string) {}
+
+func parseExprString(s string) (ast.Expr, error) { return parser.ParseExpr(s) }
